@@ -454,6 +454,39 @@ fn main() {
     let mut rng = Rng::new(seed);
     use DataType::*;
 
+    // ---------------------------------------------------------------- (0) --mode wrap
+    // Only meaningful when this bin is built WITHOUT overflow-checks (cargo profile `nochk`, i.e. the
+    // arithmetic of a --release build): Decimal256 pairs whose coercion / cast arithmetic overflows i8.
+    if arg(args, "--mode", "all") == "wrap" {
+        let a = Decimal256(76, 0);
+        let big: Vec<i256> = [6i128, -6, 1, 7, 58, -58]
+            .iter()
+            .map(|v| i256::from_i128(*v))
+            .chain([pow10(24), pow10(25), pow10(30), pow10(30).wrapping_neg(), pow10(75)])
+            .collect();
+        for b in [Decimal256(76, 51), Decimal256(76, 52), Decimal256(76, 60), Decimal256(76, 76), Decimal256(60, 55)] {
+            for (l, r) in [(a.clone(), b.clone()), (Decimal256(70, 2), b.clone()), (Decimal256(40, 0), b.clone())] {
+                let mut xs = dec_vals(&l, &r, &[]);
+                xs.extend(big.iter().copied());
+                let (_, p, _) = dec_parts(&l).unwrap();
+                let max = pow10(p as u32).wrapping_sub(i256::ONE);
+                xs.retain(|x| *x <= max && *x >= max.wrapping_neg());
+                let ys = dec_vals(&r, &l, &[]);
+                let mut rows = vec![];
+                let mut rows_rev = vec![];
+                for x in &xs {
+                    for y in &ys {
+                        rows.push((Some(*x), Some(*y)));
+                        rows_rev.push((Some(*y), Some(*x)));
+                    }
+                }
+                run_cmp(&l, &r, &rows, false, false);
+                run_cmp(&r, &l, &rows_rev, false, false);
+            }
+        }
+        return;
+    }
+
     // ---------------------------------------------------------------- (1) coerced type, all ordered pairs
     let mut uni: Vec<DataType> = vec![Null];
     uni.extend(int_types());
